@@ -2,7 +2,7 @@
     Statements only; proofs in Run/RunFacts.v, Match/AdjProofs.v, Match/CoreProofs.v. *)
 From Coq Require Import ZArith List Bool.
 From V Require Import Csv.CsvModel Data.DataModel Scan.ScanModel Scan.ScanSpec Run.RunLoop Run.RunFacts Run.RunProofs Run.RunFold
-  Match.Adjudicate Match.AdjProofs Match.Core Match.CoreProofs Match.CoreRun Match.CounterEqRun.
+  Match.Adjudicate Match.AdjProofs Match.Core Match.CoreProofs Match.CoreRun Match.CounterEqRun Scan.PySem Match.AdjSrc Match.AdjSrcEq.
 Import ListNotations.
 Open Scope Z_scope.
 
@@ -69,6 +69,21 @@ Theorem C01_line_vote : forall q blanks AND cs e s l, stopped mx s = false -> (o
      negb (snd (seq_eval cst comp (fun c s => eval q blanks AND c s l) AND cs (ensure cs s) (negb AND)))).
 Proof. exact core_line_vote. Qed.
 Print Assumptions C01_line_vote.
+
+(** the source itself: Matcher.matches as translated from csvpath/matching/matcher.py (Match/AdjSrc.v, regenerated on every run) is the
+    model's adjudication loop — for EVERY component evaluator (whatever the functions do), every stop / skip / error-handling behaviour, both
+    logic modes, every list of expressions and every state: the components are evaluated left to right, each at most once, the stop and
+    skip flags are consulted before each, the votes are folded with AND / OR exactly as [adj] says, and nothing raises.  Hence C01_line_vote,
+    C01_and_mode and the transport theorems of C04 / C13, which are about [adj], are about the loop as written in the source. *)
+Theorem C01_adjudication_source : forall (S comp : Type) stp skp clear_skip (eval : comp -> S -> S * bool) clear_errors do_lasts AND cs s,
+  matches_src S comp stp skp clear_skip eval clear_errors do_lasts AND false (fresh comp cs) s
+  = res S comp (Adjudicate.matches S comp stp skp clear_skip eval clear_errors false AND cs s).
+Proof. exact matches_src_eq. Qed.
+Print Assumptions C01_adjudication_source.
+Theorem C01_adjudication_source_lastblank : forall (S comp : Type) stp skp clear_skip (eval : comp -> S -> S * bool) clear_errors do_lasts AND xs s,
+  matches_src S comp stp skp clear_skip eval clear_errors do_lasts AND true xs s = Some (clear_errors (do_lasts s), PBool true).
+Proof. exact matches_src_lastblank. Qed.
+Print Assumptions C01_adjudication_source_lastblank.
 
 (** AND mode: the line fails exactly when some component, in its left-to-right state, votes false *)
 Theorem C01_and_mode : forall q blanks cs s l,
